@@ -134,18 +134,35 @@ func runC12(c C12Case, ev *Evid) (fs []Finding) {
 	tl := strings.ReplaceAll(readText(outL), dests[0], "<dest>")
 	tr := strings.ReplaceAll(readText(outR), dests[1], "<dest>")
 	// err: records carry an error message (never compared, only the class) and name the side that
-	// was missing; when both sides are missing the side reported first depends on goroutine order
-	bothMissing := c.Cmd == "diff" && !strings.ContainsAny(c.Rel, "*?[") && !fileExists(filepath.Join(root, sub, c.Rel)) && !fileExists(filepath.Join(dests[0], sub, c.Rel))
+	// was missing; when BOTH sides of a file / item are missing, the side reported first depends on
+	// goroutine order, so the side is masked for exactly those records (checked against the trees)
 	maskErr := func(text string) string {
 		lines := strings.Split(text, "\n")
+		cur := ""
 		for i, ln := range lines {
-			if strings.HasPrefix(ln, "err:") {
-				side := ""
-				if j := strings.LastIndex(ln, "\tsrcOrDest:"); j >= 0 && !bothMissing {
-					side = ln[j:]
-				}
-				lines[i] = "err:<message>" + side
+			if j := strings.Index(ln, "\tsrcRel:"); j >= 0 {
+				cur = strings.SplitN(ln[j+len("\tsrcRel:"):], "\t", 2)[0]
+			} else if j := strings.Index(ln, "\titem:"); j >= 0 {
+				cur = strings.SplitN(ln[j+len("\titem:"):], "\t", 2)[0]
 			}
+			if !strings.HasPrefix(ln, "err:") {
+				continue
+			}
+			srcMissing, destMissing := false, false
+			if c.Cmd == "sum-diff" {
+				itemDir := strings.ReplaceAll(cur, ".", string(filepath.Separator))
+				m, _ := filepath.Glob(filepath.Join(root, itemDir, c.Pattern))
+				srcMissing = len(m) == 0
+				destMissing = !fileExists(filepath.Join(dests[0], itemDir, "sum.wsp"))
+			} else {
+				srcMissing = !fileExists(filepath.Join(root, cur))
+				destMissing = !fileExists(filepath.Join(dests[0], cur))
+			}
+			side := ""
+			if j := strings.LastIndex(ln, "\tsrcOrDest:"); j >= 0 && !(srcMissing && destMissing) {
+				side = ln[j:]
+			}
+			lines[i] = "err:<message>" + side
 		}
 		return strings.Join(lines, "\n")
 	}
